@@ -236,10 +236,12 @@ class BatonScheduler(object):
         ACTIVE = self
         try:
             mon.register_callback(TOOL_ID, mon.events.PY_START, self._on_start)
+            # a generator / coroutine of the code under test that was started BEFORE the run is only ever resumed
+            mon.register_callback(TOOL_ID, mon.events.PY_RESUME, self._on_start)
             mon.register_callback(TOOL_ID, mon.events.LINE, self._on_event)
             mon.register_callback(TOOL_ID, mon.events.INSTRUCTION, self._on_event)
             mon.restart_events()
-            mon.set_events(TOOL_ID, mon.events.PY_START)
+            mon.set_events(TOOL_ID, mon.events.PY_START | mon.events.PY_RESUME)
             for t in threads:
                 t.start()
             with self.cv:
@@ -256,7 +258,7 @@ class BatonScheduler(object):
                     mon.set_local_events(TOOL_ID, code, 0)
                 except Exception:
                     pass
-            for evn in (mon.events.PY_START, mon.events.LINE, mon.events.INSTRUCTION):
+            for evn in (mon.events.PY_START, mon.events.PY_RESUME, mon.events.LINE, mon.events.INSTRUCTION):
                 mon.register_callback(TOOL_ID, evn, None)
             mon.free_tool_id(TOOL_ID)
             ACTIVE = None
